@@ -232,6 +232,9 @@ impl<'a> StringParser<'a> {
                 // match a python 3.8 self documenting expression
                 // format '{' PYTHON_EXPRESSION '=' FORMAT_SPECIFIER? '}'
                 '=' if self.peek() != Some(&'=') && delimiters.is_empty() => {
+                    if expression.trim().is_empty() {
+                        return Err(FStringError::new(EmptyExpression, self.get_pos()).into());
+                    }
                     self_documenting = true;
                 }
 
@@ -248,7 +251,7 @@ impl<'a> StringParser<'a> {
                         ),
                     ));
                 }
-                '(' | '{' | '[' => {
+                '(' | '{' | '[' if !self_documenting => {
                     expression.push(ch);
                     delimiters.push(ch);
                 }
